@@ -36,7 +36,7 @@ type c01Case struct {
 func warmMsg(w int) ref.Msg {
 	m := ref.Msg{H: univ.BaseHdr}
 	m.H.MsgID = 77
-	if w == 1 {
+	if w == 1 || w == 3 {
 		m.P = []ref.Payload{{T: ref.PCERT, B: 4, Data: univ.Pat(300, 12)}, {T: ref.PKE, Group: 14, Data: univ.Pat(256, 11)}, {T: ref.PNonce, Data: univ.Pat(61, 3)}}
 	}
 	return m
@@ -58,6 +58,18 @@ func warmUp(saS, saR *security.IKESAKey, senderI bool, w int) error {
 	restore()
 	if err != nil {
 		return err
+	}
+	if w == 3 {
+		// the receiver first sees a burst of damaged datagrams (an attacker, a noisy link): twelve in a row, each
+		// refused; the genuine one follows in the case itself
+		for i := 0; i < 12; i++ {
+			x := append([]byte(nil), b...)
+			x[len(x)-1-i%8] ^= 0x40
+			if _, derr := ike.DecodeDecrypt(x, nil, saR, roleOf(!senderI)); derr == nil {
+				return fmt.Errorf("damaged datagram accepted")
+			}
+		}
+		return nil
 	}
 	_, err = ike.DecodeDecrypt(b, nil, saR, roleOf(!senderI))
 	return err
@@ -113,6 +125,9 @@ func runC01(c *engine.Ctx) {
 						evalC01(c, c01Case{K: "rt", Name: name, M: m, Suite: si, Pattern: pat, SenderI: sI, ParseH: ph, Fits: true})
 						if pat == 2 {
 							evalC01(c, c01Case{K: "rt", Name: name, M: m, Suite: si, Pattern: pat, SenderI: sI, ParseH: ph, Fits: true, Warm: 1 + (si+b2int(sI)+b2int(ph))%2})
+							if !ph && len(m.P) <= 1 {
+								evalC01(c, c01Case{K: "rt", Name: name, M: m, Suite: si, Pattern: pat, SenderI: sI, Fits: true, Warm: 3})
+							}
 							if ph {
 								// other ways a receiver may have obtained the header object
 								for hm := 1; hm <= 3; hm++ {
